@@ -284,6 +284,18 @@ func expandPhiFacts(out []Fact) []Fact {
 				// on this edge the phi IS e, so e has the phi's polarity (the last conjunct of
 				// `a && b` / disjunct of `a || b`, or a nested phi to expand further)
 				c, pol := normCond(e, out[i].Pol)
+				// ... unless this predecessor is entered only where e has the other polarity: then the
+				// predecessor cannot have been taken (`ok := found; if found && stale { ok = false }; if ok`:
+				// the edge that skips the staleness test carries found == false)
+				infeasible := false
+				for _, have := range pf {
+					if have.Cond == c && have.Pol != pol {
+						infeasible = true
+					}
+				}
+				if infeasible {
+					continue
+				}
 				pf = append(pf, Fact{Cond: c, Pol: pol, If: out[i].If})
 			}
 			if first {
@@ -2307,4 +2319,45 @@ func (r *Report) held(ls *LockSets, in ssa.Instruction, pkg, typ, lockField stri
 		}
 	}
 	return best
+}
+
+// phiPredFacts: for a boolean phi known to have polarity pol, the facts of each predecessor that can
+// have been taken (constant edges of the other polarity and edges entered only where the incoming
+// value has the other polarity are excluded).  Unlike expandPhiFacts, which keeps what is common to
+// all of them, the caller may ask for something that holds in each in a different form
+// (`!exp.IsZero() && now.After(exp)` is left by "is zero" on one edge and by "not after" on another).
+func phiPredFacts(ph *ssa.Phi, pol bool) [][]Fact {
+	var out [][]Fact
+	for ei, e := range ph.Edges {
+		if cb, isC := ConstBool(e); isC && cb != pol {
+			continue
+		}
+		pred := ph.Block().Preds[ei]
+		pf := baseFacts(pred)
+		if len(pred.Instrs) > 0 {
+			if iff, ok := pred.Instrs[len(pred.Instrs)-1].(*ssa.If); ok && pred.Succs[0] != pred.Succs[1] {
+				for si, sblk := range pred.Succs {
+					if sblk == ph.Block() {
+						c, p := normCond(iff.Cond, si == 0)
+						pf = append(pf, Fact{Cond: c, Pol: p, If: iff})
+					}
+				}
+			}
+		}
+		if _, isC := ConstBool(e); !isC {
+			c, p := normCond(e, pol)
+			infeasible := false
+			for _, have := range pf {
+				if have.Cond == c && have.Pol != p {
+					infeasible = true
+				}
+			}
+			if infeasible {
+				continue
+			}
+			pf = append(pf, Fact{Cond: c, Pol: p})
+		}
+		out = append(out, pf)
+	}
+	return out
 }
